@@ -46,3 +46,71 @@ def patch_cpp_ambient(clock: SimClock, user: str = "simuser", host: str = "simho
         G.datetime, G.pwd, G.socket = saved
 
     return restore
+
+
+def install_global_ambient(clock: SimClock, user: str = "simuser", host: str = "simhost") -> None:
+    """Put the process-wide wall clock, user and host name under the simulator (worker interpreters only).
+
+    Must run before the code under test is imported, so that `from datetime import datetime` style imports
+    bind the simulated classes too.  Monotonic clocks are left alone (timeouts keep working).
+    """
+    import datetime as D
+    import getpass
+    import os
+    import platform
+    import pwd
+    import socket
+    import time as T
+
+    real_dt, real_date = D.datetime, D.date
+
+    class SimDateTime(real_dt):
+        @classmethod
+        def now(cls, tz=None):
+            base = real_dt(1970, 1, 1) + D.timedelta(seconds=clock.t)
+            if tz is not None:
+                base = base.replace(tzinfo=D.timezone.utc).astimezone(tz)
+            return cls(base.year, base.month, base.day, base.hour, base.minute, base.second, base.microsecond, base.tzinfo)
+
+        @classmethod
+        def utcnow(cls):
+            return cls.now()
+
+        @classmethod
+        def today(cls):
+            return cls.now()
+
+    class SimDate(real_date):
+        @classmethod
+        def today(cls):
+            n = SimDateTime.now()
+            return cls(n.year, n.month, n.day)
+
+    D.datetime = SimDateTime
+    D.date = SimDate
+
+    real = {k: getattr(T, k) for k in ("time", "time_ns", "localtime", "gmtime", "ctime", "asctime", "strftime")}
+    T.time = lambda: float(clock.t)
+    T.time_ns = lambda: int(clock.t) * 1_000_000_000
+    T.localtime = lambda secs=None: real["localtime"](clock.t if secs is None else secs)
+    T.gmtime = lambda secs=None: real["gmtime"](clock.t if secs is None else secs)
+    T.ctime = lambda secs=None: real["ctime"](clock.t if secs is None else secs)
+    T.asctime = lambda t=None: real["asctime"](real["localtime"](clock.t) if t is None else t)
+    T.strftime = lambda fmt, t=None: real["strftime"](fmt, real["localtime"](clock.t) if t is None else t)
+
+    entry = pwd.struct_passwd((user, "x", 1000, 1000, "", "/home/" + user, "/bin/sh"))
+    pwd.getpwuid = lambda uid: entry
+    getpass.getuser = lambda: user
+    os.getlogin = lambda: user
+    for k in ("USER", "LOGNAME", "USERNAME"):
+        os.environ[k] = user
+    os.environ["HOSTNAME"] = host
+    socket.gethostname = lambda: host
+    socket.getfqdn = lambda name="": host
+    platform.node = lambda: host
+    real_uname = os.uname()
+
+    class _Uname(tuple):
+        sysname, nodename, release, version, machine = real_uname.sysname, host, real_uname.release, real_uname.version, real_uname.machine
+
+    os.uname = lambda: _Uname((real_uname.sysname, host, real_uname.release, real_uname.version, real_uname.machine))
